@@ -15,7 +15,13 @@ import (
 	"time"
 )
 
-const verifRoot = "/verif"
+// verifRoot is /verif; GOSMT_VERIF_ROOT points a development run at a scratch copy.
+var verifRoot = func() string {
+	if d := os.Getenv("GOSMT_VERIF_ROOT"); d != "" {
+		return d
+	}
+	return "/verif"
+}()
 
 type jobSpec struct {
 	Pkg         string   `json:"pkg"`
@@ -30,6 +36,7 @@ type jobSpec struct {
 	TimeoutMs     int      `json:"timeout_ms,omitempty"`
 	MaxWorkers    int      `json:"max_workers,omitempty"`
 	SkipWitnessReplay bool `json:"skip_witness_replay,omitempty"` // harnesses shared with another check that validates them natively
+	ScheduleDependent bool `json:"schedule_dependent,omitempty"` // thread-mode harnesses: native runs take other goroutine schedules
 }
 
 type demoSpec struct {
@@ -216,6 +223,10 @@ func cmdCheck(args []string) int {
 			}
 			// --- translator validation: replay reachability witnesses natively
 			if !job.NoNative && !job.SkipWitnessReplay {
+				// thread-mode jobs: natively the goroutines are real and take whatever schedule the
+				// runtime gives them, so a witness of the engine's deterministic schedule need not be one
+				// natively; it counts as validated only when it is, and is no mismatch when it is not
+				lenient := job.ScheduleDependent
 				maxW := 2
 				if *tier == "thorough" {
 					maxW = 6
@@ -230,6 +241,9 @@ func cmdCheck(args []string) int {
 					rr := nativeReplay(cf)
 					if rr.err != "" {
 						problems = append(problems, fmt.Sprintf("%s: native replay of witness %q failed to run: %s", fn, tag, rr.err))
+						continue
+					}
+					if (!rr.reached[tag] || rr.diverged) && lenient {
 						continue
 					}
 					if !rr.reached[tag] || rr.diverged {
@@ -291,6 +305,12 @@ func cmdCheck(args []string) int {
 					}
 					reproduced = rr.violated[v.Tag] || (v.Tag == "no-panic" && rr.panicked)
 					how = "native"
+					if !reproduced && job.ScheduleDependent {
+						// the native run took another goroutine schedule: fall back to re-executing the real
+						// code's SSA with the inputs pinned, under the engine's deterministic schedule
+						ok, msg := engineReplay(cf)
+						reproduced, how = ok, "native run (real goroutines, other schedule) does not show it; engine-concrete: "+msg
+					}
 				}
 				if !reproduced {
 					problems = append(problems, fmt.Sprintf("ENGINE-MISMATCH %s: counterexample for %q does not reproduce (%s) replay=%s", fn, v.Tag, how, path))
@@ -520,6 +540,8 @@ import (
 	"encoding/json"
 	"fmt"
 	"os"
+	"runtime"
+	"time"
 )
 
 var vModel map[string]uint64
@@ -584,7 +606,13 @@ func vAssert(c bool, tag string) {
 	}
 }
 func vFail(tag string)  { fmt.Println("REPLAY-VIOLATION tag=" + tag); panic(vStop{}) }
-func vReach(tag string) { fmt.Println("REPLAY-REACH tag=" + tag) }
+func vReach(tag string) {
+	fmt.Println("REPLAY-REACH tag=" + tag)
+	if tag != "" && os.Getenv("GOSMT_STOP_AT") == tag {
+		// a reachability witness fixes the inputs up to this point only: stop here
+		panic(vStop{})
+	}
+}
 func vAnd(a, b bool) bool     { return a && b }
 func vOr(a, b bool) bool      { return a || b }
 func vNot(a bool) bool        { return !a }
@@ -626,6 +654,26 @@ func vSameSlice(a, b []byte) bool {
 func vEventCount(sub string) int { fmt.Println("REPLAY-UNSUPPORTED vEventCount"); panic(vStop{}) }
 func vPrint(x any)               { fmt.Println("vPrint:", x) }
 func vSchedule()                 {}
+// Thread mode natively: the goroutines are real. "Until everyone is blocked" becomes a pause,
+// "a timer expires" becomes 2.2 s of real time (enough for the server's fixed 1 s and 2 s timers;
+// harnesses that configure their own durations are replayed in the engine only), and the
+// goroutines of the connection are counted against the number running when the harness began.
+var vBaseGoroutines int
+func vThreads()                  { vBaseGoroutines = runtime.NumGoroutine() }
+func vYield()                    { time.Sleep(60 * time.Millisecond) }
+func vLiveThreads() int {
+	for i := 0; i < 100 && runtime.NumGoroutine() > vBaseGoroutines; i++ {
+		time.Sleep(10 * time.Millisecond)
+	}
+	if n := runtime.NumGoroutine() - vBaseGoroutines; n > 0 {
+		return n
+	}
+	return 0
+}
+func vTimerCount() int           { return 1 }
+func vTimerArmed(k int) bool     { return true }
+func vTimerFire(k int)           { time.Sleep(2200 * time.Millisecond) }
+func vTimerNanos(k int) int64    { fmt.Println("REPLAY-UNSUPPORTED vTimerNanos"); panic(vStop{}) }
 func vWatchFields(ptr any)       {}
 func vSetAccessHook(f func())    { fmt.Println("REPLAY-UNSUPPORTED interleaving hook"); panic(vStop{}) }
 func vClearAccessHook()          {}
@@ -800,6 +848,9 @@ func nativeReplay(cf cexFile) replayResult {
 	cmd := exec.Command(s.bin, "-test.run", "^TestVerifReplay$", "-test.v", "-test.timeout", "120s")
 	cmd.Dir = filepath.Join(repoDir(), cf.Pkg)
 	cmd.Env = append(os.Environ(), "GOSMT_MODEL="+mf.Name(), "GOSMT_FUNC="+cf.Harness)
+	if strings.HasPrefix(cf.Tag, "reach:") {
+		cmd.Env = append(cmd.Env, "GOSMT_STOP_AT="+strings.TrimPrefix(cf.Tag, "reach:"))
+	}
 	out, _ := cmd.CombinedOutput()
 	rr.output = string(out)
 	if !strings.Contains(rr.output, "REPLAY-") {
